@@ -8,21 +8,33 @@
 (* (Connect4 = authorize_v4, TcpConnect = trace_v4), one per user-space    *)
 (* map operation of the agent (PolicyAdd/PolicyRemove = update_redirect_   *)
 (* policy, SkipAdd = update_skip_process_map, Release = remove_audit_map_  *)
-(* entry / the port going away).  Threads interleave freely between the    *)
-(* two hook points.  The maps are the program's: policy and skip (hash),   *)
-(* localMap and auditMap (LRU, least recently used first, capacity K).     *)
+(* entry: the proxy consumed the record of the connection it accepted).    *)
+(* The end of a connection is a step of its own: EndUnconsumed = the       *)
+(* connection on a source port ends (the client went away between its SYN  *)
+(* and the proxy's accept, or nobody ever looks the port up) and the audit *)
+(* map is NOT touched, so a record may outlive its connection (a leftover) *)
+(* and the kernel may hand its source port to a later connect.  Threads    *)
+(* interleave freely between the two hook points.  The maps are the        *)
+(* program's: policy and skip (hash), localMap and auditMap (LRU, least    *)
+(* recently used first, capacity K).                                       *)
 (*                                                                         *)
-(* Ghost variables (cur, truth) remember, per pending connect and per      *)
-(* source port in use, what is *true* about the caller and the connection; *)
-(* the properties compare the maps and the rewritten address with them.    *)
+(* Ghost variables (cur, truth, left) remember, per pending connect and    *)
+(* per source port, what is *true* about the caller and the connection and *)
+(* which map entries are leftovers (and what they truthfully said when     *)
+(* they were written); the properties compare the maps and the rewritten   *)
+(* address with them.                                                      *)
 (*                                                                         *)
 (* Environment assumptions (from the property's quantifier):               *)
-(*  - Bounded: at most K connections are in flight (hooked, or recorded    *)
-(*    and not yet released), so the LRU maps never evict;                  *)
+(*  - Bounded: the LRU map never evicts a record that is still needed: a   *)
+(*    connect is admitted only if, with every connect between the hooks    *)
+(*    publishing a record, the entries the map would evict are leftovers   *)
+(*    (at most K connections hooked or recorded-and-live; leftovers count  *)
+(*    unless they are the least recently used entries);                    *)
 (*  - a connect that passes the cgroup hook reaches tcp_connect (the       *)
 (*    non-gating configuration mc/EbpfAbort.cfg lifts this, AllowAbort);   *)
 (*  - the agent registers its pid while none of its threads is mid-connect;*)
-(*  - a source port is reused only after its record is gone (Release).     *)
+(*  - a source port is reused only after its connection ended (Release or  *)
+(*    EndUnconsumed) -- its record may still be in the map.                *)
 (***************************************************************************)
 EXTENDS Naturals, Sequences, FiniteSets, TLC
 
@@ -35,7 +47,8 @@ CONSTANTS Threads,     \* set of records [pid, tid, uid, gid]
           K,           \* capacity of the LRU maps
           Bounded,     \* BOOLEAN: the environment keeps at most K connections in flight
           AllowDirect, \* BOOLEAN: tcp_connect may be reached by a socket the cgroup hook never saw (fallback path)
-          AllowAbort   \* BOOLEAN: a connect may fail between the two hooks (non-gating exploration)
+          AllowAbort,  \* BOOLEAN: a connect may fail between the two hooks (non-gating exploration)
+          MaxLeft      \* at most this many leftover records at a time (bounds EndUnconsumed; 0 = never)
 
 VARIABLES policy,    \* hash map: [ip, port, proto] -> [ip, port]   (policy_map)
           skip,      \* set of pids                                  (skip_process_map)
@@ -44,10 +57,12 @@ VARIABLES policy,    \* hash map: [ip, port, proto] -> [ip, port]   (policy_map)
           pc,        \* thread -> "idle" | "hooked" (between connect4 and tcp_connect)
           cur,       \* ghost: thread -> the connect4 outcome of its pending TCP attempt (Idle otherwise)
           lastOther, \* ghost: outcome of the most recent non-TCP connect4: [div, same]
-          truth      \* ghost: sport -> what is true about the connection using it; None when the port is free
-                     \*        or its connection never had a listed destination (then no record may exist)
+          truth,     \* ghost: sport -> what is true about the connection using it; None when the port is free
+                     \*        or its connection never had a listed destination (then it produces no record)
+          left       \* ghost: sport -> the record a connection that ended unconsumed left under this port (what
+                     \*        was true of THAT connection), while it is still in the map; None otherwise
 
-vars == <<policy, skip, localMap, auditMap, pc, cur, lastOther, truth>>
+vars == <<policy, skip, localMap, auditMap, pc, cur, lastOther, truth, left>>
 
 None == [none |-> TRUE]
 EmptyMap == [k \in {} |-> None]
@@ -70,32 +85,48 @@ Put(m, k, v) == LET m1 == Without(m, k)
                 IN  Append(m2, [k |-> k, v |-> v])
 
 InFlight == Cardinality({t \in Threads : pc[t] = "hooked"}) + Len(auditMap)
-Room == Bounded => InFlight < K
+\* one more connect may enter: the evictions that can follow (every hooked connect publishing under a fresh port)
+\* fall on the least recently used entries, which must all be leftovers
+Room == Bounded => \A i \in 1..(InFlight + 1 - K) :
+                      i <= Len(auditMap) /\ auditMap[i].k.proto = TCP /\ left[auditMap[i].k.sport] # None
+NLeft == Cardinality({s \in SPorts : left[s] # None})
 
 Init == /\ policy = EmptyMap /\ skip = {} /\ localMap = <<>> /\ auditMap = <<>>
         /\ pc = [t \in Threads |-> "idle"] /\ cur = [t \in Threads |-> Idle]
         /\ lastOther = [div |-> FALSE, same |-> TRUE]
-        /\ truth = [s \in SPorts |-> None]
+        /\ truth = [s \in SPorts |-> None] /\ left = [s \in SPorts |-> None]
 
 \* ---- the agent (user space) ----------------------------------------------
 PolicyAdd(d) == /\ d \in Listable /\ Key(d[1], d[2], TCP) \notin DOMAIN policy
                 /\ policy' = policy @@ (Key(d[1], d[2], TCP) :> Proxy)
-                /\ UNCHANGED <<skip, localMap, auditMap, pc, cur, lastOther, truth>>
+                /\ UNCHANGED <<skip, localMap, auditMap, pc, cur, lastOther, truth, left>>
 
 PolicyRemove(d) == /\ Key(d[1], d[2], TCP) \in DOMAIN policy
                    /\ policy' = [k \in DOMAIN policy \ {Key(d[1], d[2], TCP)} |-> policy[k]]
-                   /\ UNCHANGED <<skip, localMap, auditMap, pc, cur, lastOther, truth>>
+                   /\ UNCHANGED <<skip, localMap, auditMap, pc, cur, lastOther, truth, left>>
 
 SkipAdd(p) == /\ p \in AgentPids \ skip
               /\ \A t \in Threads : t.pid = p => pc[t] = "idle"
               /\ skip' = skip \cup {p}
-              /\ UNCHANGED <<policy, localMap, auditMap, pc, cur, lastOther, truth>>
+              /\ UNCHANGED <<policy, localMap, auditMap, pc, cur, lastOther, truth, left>>
 
-\* the proxy consumed the record (remove_audit_map_entry(sport)) / the connection on this port ended
+\* the proxy consumed the record (remove_audit_map_entry(sport)) of the connection on this port, which then ends
 Release(s) == /\ truth[s] # None
               /\ auditMap' = Without(auditMap, AKey(TCP, s))
               /\ truth' = [truth EXCEPT ![s] = None]
+              /\ left' = [left EXCEPT ![s] = None]
               /\ UNCHANGED <<policy, skip, localMap, pc, cur, lastOther>>
+
+\* the connection on this port ends and nobody consumed its record (the client gave up between its SYN and the
+\* proxy's accept; or the connection was never the proxy's): the audit map is not touched.  A record of this
+\* connection becomes a leftover; a leftover already lying under the port (the connection wrote nothing) stays one.
+EndUnconsumed(s) ==
+  /\ truth[s] # None
+  /\ LET mine == Has(auditMap, AKey(TCP, s)) /\ left[s] = None IN
+     /\ mine => NLeft < MaxLeft
+     /\ left' = [left EXCEPT ![s] = IF mine THEN TrueRecord(truth[s].t, truth[s].ip, truth[s].port) ELSE @]
+  /\ truth' = [truth EXCEPT ![s] = None]
+  /\ UNCHANGED <<policy, skip, localMap, auditMap, pc, cur, lastOther>>
 
 \* ---- cgroup/connect4: authorize_v4 ---------------------------------------
 Connect4(t, ip, port, proto) ==
@@ -116,7 +147,7 @@ Connect4(t, ip, port, proto) ==
                  /\ UNCHANGED lastOther
             ELSE /\ lastOther' = [div |-> div, same |-> (nip = ip /\ nport = port)]
                  /\ UNCHANGED <<pc, cur>>
-  /\ UNCHANGED <<policy, skip, auditMap, truth>>
+  /\ UNCHANGED <<policy, skip, auditMap, truth, left>>
 
 \* ---- kprobe tcp_connect: trace_v4 ------------------------------------------
 \* (dip, dport) is the destination the socket carries at that point (the rewritten one after a diversion)
@@ -132,9 +163,16 @@ Publish(t, s, dip, dport) ==
                            THEN Put(auditMap, AKey(TCP, s), TrueRecord(t, dip, dport))
                            ELSE auditMap
 
+\* does trace_v4 write a record for this connect?  (then it replaces whatever lay under the port)
+Writes(t, dip, dport) == t.pid \notin skip /\ (Has(localMap, TKey(t)) \/ Key(dip, dport, TCP) \in DOMAIN policy)
+\* leftovers after a publication under port s: overwritten under s, or evicted by the LRU map
+LeftAfter(t, s, dip, dport) ==
+  left' = [x \in SPorts |-> IF ~Has(auditMap', AKey(TCP, x)) \/ (x = s /\ Writes(t, dip, dport)) THEN None ELSE left[x]]
+
 TcpConnect(t, s) ==
   /\ pc[t] = "hooked" /\ truth[s] = None
   /\ Publish(t, s, cur[t].nip, cur[t].nport)
+  /\ LeftAfter(t, s, cur[t].nip, cur[t].nport)
   /\ LET listedK == <<cur[t].nip, cur[t].nport>> \in ListedAddrs IN
      truth' = [truth EXCEPT ![s] = IF cur[t].listed \/ listedK
                                    THEN [t |-> t, ip |-> cur[t].ip, port |-> cur[t].port, div |-> cur[t].div,
@@ -147,6 +185,7 @@ TcpConnect(t, s) ==
 TcpConnectDirect(t, ip, port, s) ==
   /\ AllowDirect /\ pc[t] = "idle" /\ truth[s] = None /\ Room
   /\ Publish(t, s, ip, port)
+  /\ LeftAfter(t, s, ip, port)
   /\ truth' = [truth EXCEPT ![s] = IF <<ip, port>> \in ListedAddrs
                                    THEN [t |-> t, ip |-> ip, port |-> port, div |-> FALSE, listedK |-> TRUE,
                                          agent |-> t.pid \in skip]
@@ -156,12 +195,13 @@ TcpConnectDirect(t, ip, port, s) ==
 \* non-gating: the connect fails after the cgroup hook and never reaches tcp_connect
 Abort(t) == /\ AllowAbort /\ pc[t] = "hooked"
             /\ pc' = [pc EXCEPT ![t] = "idle"] /\ cur' = [cur EXCEPT ![t] = Idle]
-            /\ UNCHANGED <<policy, skip, localMap, auditMap, lastOther, truth>>
+            /\ UNCHANGED <<policy, skip, localMap, auditMap, lastOther, truth, left>>
 
 AgentPolicy == \E d \in Listable : PolicyAdd(d) \/ PolicyRemove(d)
 Next == \/ AgentPolicy
         \/ \E p \in AgentPids : SkipAdd(p)
         \/ \E s \in SPorts : Release(s)
+        \/ \E s \in SPorts : EndUnconsumed(s)
         \/ \E t \in Threads, ip \in Ips, port \in Ports, proto \in Protos : Connect4(t, ip, port, proto)
         \/ \E t \in Threads, s \in SPorts : TcpConnect(t, s)
         \/ \E t \in Threads, ip \in Ips, port \in Ports, s \in SPorts : TcpConnectDirect(t, ip, port, s)
@@ -183,26 +223,35 @@ RedirectExactly ==
         /\ ~cur[t].div => cur[t].nip = cur[t].ip /\ cur[t].nport = cur[t].port
   /\ ~lastOther.div /\ lastOther.same                 \* a non-TCP connect is never diverted
 
-\* every diverted connect has its record under (TCP, local source port); every record states the caller's uid, pid,
-\* uid = 0 and the original destination
+\* the entry under port s is a leftover of an earlier connection, not a record of the connection now using s
+Leftover(s) == left[s] # None
+
+\* every diverted connect has its record under (TCP, local source port) -- its own, also when the port was handed
+\* out again while an earlier connection's record still lay there; every record of a live connection states the
+\* caller's uid, pid, uid = 0 and the original destination
 RecordTruth ==
   \A s \in SPorts : truth[s] # None =>
-     /\ truth[s].div => HasRec(s)
-     /\ HasRec(s) => Rec(s) = TrueRecord(truth[s].t, truth[s].ip, truth[s].port)
+     /\ truth[s].div => HasRec(s) /\ ~Leftover(s)
+     /\ HasRec(s) /\ ~Leftover(s) => Rec(s) = TrueRecord(truth[s].t, truth[s].ip, truth[s].port)
 
-\* no record for anything else: every entry of the audit map belongs to a live TCP connection of a non-agent caller
-\* whose destination was listed when a hook looked
+\* no record is produced by anything else: every entry of the audit map is either the record of the live TCP
+\* connection on that port, of a non-agent caller whose destination was listed when a hook looked, or a leftover:
+\* the unaltered record of an earlier such connection, which stated the truth when it was written
 NoRecordOtherwise ==
-  \A i \in 1..Len(auditMap) :
-     LET k == auditMap[i].k IN
-     /\ k.proto = TCP /\ k.sport \in SPorts /\ truth[k.sport] # None
-     /\ ~truth[k.sport].agent
-     /\ truth[k.sport].div \/ truth[k.sport].listedK
+  /\ \A i \in 1..Len(auditMap) :
+       LET k == auditMap[i].k IN
+       /\ k.proto = TCP /\ k.sport \in SPorts
+       /\ \/ Leftover(k.sport) /\ auditMap[i].v = left[k.sport]
+          \/ /\ ~Leftover(k.sport) /\ truth[k.sport] # None
+             /\ ~truth[k.sport].agent
+             /\ truth[k.sport].div \/ truth[k.sport].listedK
+  /\ \A s \in SPorts : Leftover(s) => HasRec(s)
 
+\* the agent's own connects are not diverted and write nothing (a leftover under the port they were given stays as it is)
 AgentUntouched ==
   /\ \A t \in Threads : cur[t] # Idle /\ cur[t].agent =>
         ~cur[t].div /\ cur[t].nip = cur[t].ip /\ cur[t].nport = cur[t].port
-  /\ \A s \in SPorts : truth[s] # None /\ truth[s].agent => ~HasRec(s)
+  /\ \A s \in SPorts : truth[s] # None /\ truth[s].agent => ~HasRec(s) \/ Leftover(s)
 
 \* mechanism invariants: nothing stale is left for a later connect of the same thread; the bound is respected
 NoStaleLocal == \A i \in 1..Len(localMap) :
